@@ -23,7 +23,9 @@ RULE = (
     "are involved) x L in [-3,3] x one N drawn from: the non-singlet Talbot contour (r=1/2, o=0) and the singlet one "
     "(r=6.4/(1-ln x), o=1) with t in (0.5,0.95], x in [1e-7,1), either branch; a box Re N in [1.2,50], |Im N|<=60; "
     "the left half-plane Re N in [-6,1.2] at distance >=0.1 from the real axis; |Im N| in [1e-6,1e-2]; the real "
-    "axis N in [1.2,50]; the real axis between the poles, N = k + [0.1,0.9], k=-6..1. Off the axis the tower is "
+    "axis N in [1.2,50]; the real axis between the poles, N = k + [0.1,0.9], k=-6..1; windows around the points the "
+    "sources special-case (N=1: first-moment guards of the NNLO valence entries; N=0,-1,-2: pole guard of the "
+    "polygamma): Re N on the point or 1e-7..1e-4 beside it, Im N of either sign, 1e-8..1e-4 or 0.05..3. Off the axis the tower is "
     "evaluated at N and conj N and compared slice by slice (one perturbative order at a time); on the axis the "
     "imaginary part must vanish. Non-trivial = perturbative order >= 2 and (|Im N| >= 0.5 or N real); distinct by "
     "full case."
@@ -37,6 +39,9 @@ ASSUMPTIONS = [
     "unavailable for nf=6 (NotImplementedError) and are generated with nf 3..5 only",
     "Talbot contour parameters typed from the module docstring of eko.mellin (not imported)",
     "non-finite output on an in-domain input is reported as a violation (it cannot equal its conjugate)",
+    "guard windows: never exactly on the real axis (N=1,0,-1,-2 are poles of some towers); the conjugation oracle "
+    "is used unchanged there: on the unchanged tree the symmetry is exact also beside the removable singularity, "
+    "because conj N runs through the conjugate floating-point operations",
 ]
 LEVEL_TEXT = (
     "Seeded random exploration of the complex N plane (including the actual inversion contours and the left "
@@ -154,7 +159,11 @@ def check_case(case):
 
 # ------------------------------------------------------------------------------------------ generation
 
-POPS = ["talbot-ns", "talbot-s", "box", "box", "left", "left", "near-axis", "real", "real-left", "edge"]
+POPS = ["talbot-ns", "talbot-s", "box", "box", "left", "left", "near-axis", "real", "real-left", "edge", "guard", "guard", "guard"]
+# points that the sources special-case (grep for branches on N): the removable singularity of the NNLO valence
+# anomalous dimension at N = 1 (space_like/as3.py gamma_nsv, time_like/as3.py) and the pole guard of
+# cern_polygamma at the non-positive integers (reached through N+1, N/2+1, (N+1)/2 -> N = 0, -1, -2)
+GUARD_POINTS = [1.0, 1.0, 1.0, 1.0, 0.0, -1.0, -2.0]
 
 
 def talbot(t, r, o):
@@ -185,6 +194,14 @@ def n_from(pop, seed):
         return [float(rng.uniform(1.2, 50.0)), sgn * float(10 ** rng.uniform(-6.0, -2.0))]
     if pop == "real":
         return [float(rng.uniform(1.2, 50.0)), 0.0]
+    if pop == "guard":
+        # Re N on the point, or within 1e-7..1e-4 of it on either side; Im N of either sign, never 0 (the points
+        # are poles of some towers): tiny (1e-8..1e-4, inside and outside the 1e-5 windows) or O(1)
+        p = GUARD_POINTS[int(rng.integers(len(GUARD_POINTS)))]
+        u = int(rng.integers(5))
+        dre = 0.0 if u == 0 else (1.0 if u % 2 else -1.0) * float(10 ** rng.uniform(-7.0, -4.0))
+        im = float(10 ** rng.uniform(-8.0, -4.0)) if rng.integers(2) else float(rng.uniform(0.05, 3.0))
+        return [p + dre, sgn * im]
     if pop == "real-left":
         return [float(int(rng.integers(-6, 2)) + rng.uniform(0.1, 0.9)), 0.0]
     raise ValueError(pop)
